@@ -13,8 +13,8 @@ import (
 // ---- the X9 nesting automaton (specification side): which parent does each input record follow ----
 
 type place struct {
-	kind         string
-	cl, b, it    int // 1-based index of the enclosing cash letter / bundle / item; 0 = none
+	kind      string
+	cl, b, it int // 1-based index of the enclosing cash letter / bundle / item; 0 = none
 }
 
 func (p place) String() string { return fmt.Sprintf("%s@%d.%d.%d", p.kind, p.cl, p.b, p.it) }
